@@ -52,6 +52,7 @@ class Log:
         self.node_index = {}
         self.random_draws = {}
         self.moved = {}
+        self.stamps, self.keep = {}, []     # id(item) -> last (creation, entry, exit) seen; items kept alive so ids stay unique
 
 
 class StatsDict(dict):
@@ -159,17 +160,39 @@ def _construct(cfg, mods, env, log, nodes, edges):
             st = store_of(obj)
             oput, oget = st.put, st.get
 
+            def stamps(it, _i, leaving_node):
+                # implementation-side observation of the item's own time stamps at every movement (C18: non-decreasing along
+                # the route): none lies in the future, none precedes the creation stamp, none is ever set back, and an item
+                # that leaves a node was not stamped 'exit' before it was stamped 'entry'
+                c, a, b = (getattr(it, f, None) for f in ("timestamp_creation", "timestamp_node_entry", "timestamp_node_exit"))
+                code = 0
+                if any(x is not None and x > env.now for x in (c, a, b)):
+                    code = 1
+                elif c is not None and any(x is not None and x < c for x in (a, b)):
+                    code = 2
+                elif leaving_node and a is not None and b is not None and b < a:
+                    code = 3
+                prev = log.stamps.get(id(it))
+                if not code and prev and any(x is not None and y is not None and y < x for x, y in zip(prev, (c, a, b))):
+                    code = 4
+                log.stamps[id(it)] = (c, a, b)
+                log.keep.append(it)
+                if code:
+                    log.lines.append("OBS %d %d stamp %d %d" % (env.now, _i, getattr(it, "_vidx", -1), code))
+
             def put(ev, item, _o=oput, _i=i):
                 r = _o(ev, item)
                 it = item[0] if isinstance(item, tuple) else item
                 log.lines.append("P %d %d %d" % (env.now, _i, getattr(it, "_vidx", -1)))
                 log.moved[_i] = log.moved.get(_i, 0) + 1
+                stamps(it, _i, True)
                 return r
 
             def get(ev, _o=oget, _i=i):
                 it = _o(ev)
                 log.lines.append("T %d %d %d" % (env.now, _i, getattr(it, "_vidx", -1)))
                 log.moved[_i] = log.moved.get(_i, 0) - 1
+                stamps(it, _i, False)
                 return it
             st.put, st.get = put, get
             ocp, ocg = st.reserve_put_cancel, st.reserve_get_cancel
@@ -622,11 +645,15 @@ def gen_config_sc(rng):
         sp = node("splitter")
         edge(last, sp)
         last = sp
-    for _ in range(rng.choice([1, 1, 2, 2])):
-        if rng.random() < 0.5:
-            # a slow consumer behind a small buffer: congestion on this out-edge
+    fan = rng.choice([1, 1, 2, 2, 3, 3])
+    for _ in range(fan):
+        if rng.random() < (0.5 if fan < 3 else 0.8):
+            # a slow consumer behind a small buffer: congestion on this out-edge (with three branches mostly all of them, so
+            # that the node has to fall back on its last out-edge)
             m = node("machine", slow=True)
             edge(last, m)
+            if fan == 3 and edges[-1]["kind"] == "buffer":
+                edges[-1]["cap"] = rng.choice([1, 1, 2])
             sk = node("sink")
             edge(m, sk)
         else:
